@@ -29,7 +29,7 @@ def corpus():
 ENGINES = [{"name": "pipe", "gen": gen, "corpus": corpus, "nontrivial": nontrivial, "classify": pipegen.classify, "shards": 12}]
 from props.e2e_common import e2e_engine
 ENGINES.append(e2e_engine("C01"))   # the same histories against a real pipeline over TCP/HTTP
-known_signature = known_signature_for({"KR"})   # KR: e2e engine, finding C01-2
+known_signature = known_signature_for(set())
 LEVEL_TEXT = ("Theorem over all update histories of the RIB model: what a query shows for (family, prefix, source) is the last event of that source for "
               "that prefix (exact characterisation including the sticky session-wide withdrawal), one entry per source, overlap ends announced, an "
               "unparsable UPDATE changes nothing, frame. Kernel-checked, axiom-free; tied to the real state machine + RIB unit + store by generated "
